@@ -24,39 +24,40 @@ type Behaviour struct {
 // Behaviour kinds shared by the exchange checks. "correct" answers like an honest server
 // that holds the whole canonical chain.
 const (
-	bhCorrect       = "correct"
-	bhNotFound      = "not_found"
-	bhEmpty         = "empty"               // close without a frame
-	bhHang          = "hang"                // never answer (until the stream is reset by the client)
-	bhReset         = "reset"               // reset the stream
-	bhGarbage       = "garbage_body"        // OK frame with an undecodable body
-	bhUnknownCode   = "unknown_status"      // frame with status code 7
-	bhUnknownBody   = "unknown_status_body" // frames with a status code outside the protocol (7) carrying the honest headers
-	bhInvalidCode   = "invalid_status"      // frame with status code 0
-	bhRawGarbage    = "raw_garbage"         // bytes that are no frame at all
-	bhTruncated     = "truncated"           // half a frame, then close
-	bhOversized     = "oversized_len"       // length prefix of 2 GiB
-	bhWrongChain    = "wrong_chain"         // header with another chain id
-	bhBadValidate   = "bad_validate"        // header failing Validate
-	bhForged        = "forged"              // header of another lineage at position K
-	bhOtherHeader   = "other_header"        // a valid canonical header, but not the requested one (K heights away)
-	bhShift         = "shift"               // range answered from origin+K (K may be negative)
-	bhRepeatPrev    = "repeat_prev"         // the previous chunk again
-	bhReorder       = "reorder"             // range with two headers swapped
-	bhShortPrefix   = "short_prefix"        // only the first K (>=1) headers
-	bhOverlap       = "overlap"             // starts one before origin
-	bhMore          = "more"                // more headers than asked
-	bhDupInside     = "dup_inside"          // one header twice in the run
-	bhGapInside     = "gap_inside"          // one header missing in the run
-	bhNilBodyOK     = "ok_empty_body"       // OK status with empty body
-	bhSeveral       = "several_frames"      // two frames for a single-header request
-	bhCaseChain     = "chain_case"          // header whose chain id differs only in case
-	bhNoChain       = "no_chain"            // header with an empty chain id
-	bhChainPrefix   = "chain_prefix"        // header whose chain id lacks the last character
-	bhPanicValidate = "panic_validate"      // header on which the type's Validate panics (C05 only: needs vh.ArmPanics)
-	bhPanicVerify   = "panic_verify"        // header on which the type's Verify panics
-	bhPanicDecode   = "panic_decode"        // bytes on which the type's UnmarshalBinary panics
-	bhShiftInside   = "shift_inside"        // a run that starts late but still ends inside the requested window
+	bhCorrect          = "correct"
+	bhNotFound         = "not_found"
+	bhEmpty            = "empty"               // close without a frame
+	bhHang             = "hang"                // never answer (until the stream is reset by the client)
+	bhReset            = "reset"               // reset the stream
+	bhGarbage          = "garbage_body"        // OK frame with an undecodable body
+	bhUnknownCode      = "unknown_status"      // frame with status code 7
+	bhUnknownBody      = "unknown_status_body" // frames with a status code outside the protocol (7) carrying the honest headers
+	bhInvalidCode      = "invalid_status"      // frame with status code 0
+	bhRawGarbage       = "raw_garbage"         // bytes that are no frame at all
+	bhTruncated        = "truncated"           // half a frame, then close
+	bhOversized        = "oversized_len"       // length prefix of 2 GiB
+	bhWrongChain       = "wrong_chain"         // header with another chain id
+	bhBadValidate      = "bad_validate"        // header failing Validate
+	bhForged           = "forged"              // header of another lineage at position K
+	bhOtherHeader      = "other_header"        // a valid canonical header, but not the requested one (K heights away)
+	bhShift            = "shift"               // range answered from origin+K (K may be negative)
+	bhRepeatPrev       = "repeat_prev"         // the previous chunk again
+	bhReorder          = "reorder"             // range with two headers swapped
+	bhShortPrefix      = "short_prefix"        // only the first K (>=1) headers
+	bhOverlap          = "overlap"             // starts one before origin
+	bhMore             = "more"                // more headers than asked
+	bhDupInside        = "dup_inside"          // one header twice in the run
+	bhGapInside        = "gap_inside"          // one header missing in the run
+	bhNilBodyOK        = "ok_empty_body"       // OK status with empty body
+	bhSeveral          = "several_frames"      // two frames for a single-header request
+	bhCaseChain        = "chain_case"          // header whose chain id differs only in case
+	bhNoChain          = "no_chain"            // header with an empty chain id
+	bhChainPrefix      = "chain_prefix"        // header whose chain id lacks the last character
+	bhBadValidateChain = "bad_validate_chain"  // a header failing Validate at position K, the rest of the run re-linked on top of it
+	bhPanicValidate    = "panic_validate"      // header on which the type's Validate panics (C05 only: needs vh.ArmPanics)
+	bhPanicVerify      = "panic_verify"        // header on which the type's Verify panics
+	bhPanicDecode      = "panic_decode"        // bytes on which the type's UnmarshalBinary panics
+	bhShiftInside      = "shift_inside"        // a run that starts late but still ends inside the requested window
 )
 
 type peerReqLog struct {
@@ -281,6 +282,23 @@ func (p *scriptedPeer) handle(s network.Stream) {
 		mutate(vh.AdvChainPrefix)
 	case bhBadValidate:
 		mutate(vh.AdvBadValidate)
+	case bhBadValidateChain:
+		if len(honest) == 0 {
+			one(frame(p2p_pb.StatusCode_NOT_FOUND, nil))
+			return
+		}
+		out := append([]*vh.Header(nil), honest...)
+		pos := 0
+		if b.K > 0 {
+			pos = b.K % len(out)
+		}
+		out[pos] = vh.Variant(out[pos], vh.AdvBadValidate, uint32(idx+1))
+		for i := pos + 1; i < len(out); i++ {
+			c := out[i].Clone()
+			c.Prev = append([]byte(nil), out[i-1].Hash()...)
+			out[i] = c.Seal()
+		}
+		send(out)
 	case bhPanicValidate:
 		mutate(vh.AdvPanicValidate)
 	case bhPanicVerify:
